@@ -436,7 +436,11 @@ func (b *Blob) ToStr(g *G) Str {
 				s.D.render(&sb)
 				segs = append(segs, Seg{C: sb.String()})
 			} else {
-				segs = append(segs, Seg{Q: "json(" + s.D.String() + ")"})
+				if s.D.K == DNum {
+					segs = append(segs, Seg{Q: "jsonnum(" + s.D.String() + ")"})
+				} else {
+					segs = append(segs, Seg{Q: "json(" + s.D.String() + ")"})
+				}
 			}
 		case s.Pad != nil:
 			segs = append(segs, Seg{Q: "pad(" + s.Pad.Key() + ")"})
@@ -480,20 +484,32 @@ func (b *Blob) byteTerms() ([]*Term, bool) {
 }
 
 func blobFromTerms(ts []*Term) *Blob {
-	conc := true
+	// runs of constant bytes become concrete segments, the rest symbolic ones
+	var segs []BSeg
+	var cb []byte
+	var sb []*Term
 	for _, t := range ts {
-		if !t.IsConst() {
-			conc = false
+		if t.IsConst() {
+			if sb != nil {
+				segs = append(segs, BSeg{Sym: sb})
+				sb = nil
+			}
+			cb = append(cb, byte(t.BV))
+		} else {
+			if cb != nil {
+				segs = append(segs, BSeg{B: cb})
+				cb = nil
+			}
+			sb = append(sb, t)
 		}
 	}
-	if conc {
-		b := make([]byte, len(ts))
-		for i, t := range ts {
-			b[i] = byte(t.BV)
-		}
-		return blobBytes(b)
+	if cb != nil {
+		segs = append(segs, BSeg{B: cb})
 	}
-	return &Blob{Segs: []BSeg{{Sym: ts}}}
+	if sb != nil {
+		segs = append(segs, BSeg{Sym: sb})
+	}
+	return &Blob{Segs: segs}
 }
 
 func newSinkBlob(g *G, n Int) *Blob { return &Blob{sink: true, sinkLen: n.T} }
